@@ -56,6 +56,44 @@ CLAIMED.update({
         ref="DESIGN.md C20, notes/C20.md"),
 })
 
+CLAIMED.update({
+    "C03": dict(
+        text="Gallina model of KernelDG's dependency scan (is_read / is_written / find_depending / create_DG), generic in the numeric instance and in the register-alias test. Proved for every kernel: an edge A->B that is not a store-to-load edge exists iff B is a later instruction that reads a register (or, only with flag dependencies, a flag) written by A with no writer strictly between; edges point forward; flags never produce edges without -f; edge weights are producer latency without load stage / index-write-back latency / + forwarding. The model is tied to the code bit for bit (edge sets and weights) on synthetic ISA databases with random roles, hidden flag operands, zero idioms, default roles and write-back addressing, and on shipped kernels x models; the edge set is checked against an independent architectural RAW relation computed from the generator's role tables.",
+        note="Trusted: Coq kernel; the per-line semantic operand sets are the implementation's own (assign_src_dst is exercised against architectural roles by the oracle, not modelled); register alias test = definition regenerated from source (C12).",
+        technique="Coq proof by induction over the instruction list (scan = RAW) + bit-exact differential correspondence of the dependency graph",
+        ref="DESIGN.md C03"),
+    "C04": dict(
+        text="Proved in Coq over exact rationals: the dynamic programme cp_opt is an upper bound of the length (edge latencies + leading load stage once + latency of the last instruction) of EVERY dependency chain of the kernel graph, hence never below any single latency. The implementation's critical path is tied to it by a certificate evaluated in Coq on every case: reported lines are linked by edges of the model graph, each CP cell is the edge latency (last: the instruction latency), and the cells add up to cp_opt; an independent brute-force enumeration of all chains of the implementation's own graph is the search. The shipped defect (path chosen by edge latencies only) was fixed in /repo.",
+        note="Trusted: Coq kernel; networkx dag_longest_path is not modelled (only its result is certified); attainment of cp_opt is established per case by the certificate, not by a general theorem.",
+        technique="Coq proof (DP upper bound by induction over program order) + per-case certificate checking in Coq",
+        ref="DESIGN.md C04"),
+    "C05": dict(
+        text="Proved in Coq: the path enumeration of the model is sound and complete for the dependency paths of the doubled kernel; the reported set is by definition the first-kept de-duplication of the entries of ALL paths from an instruction to its next-iteration copy; de-duplication reports only input entries, represents every one, and each class of equal sorted (line, latency) lists exactly once. Tied to get_loopcarried_dependencies() bit for bit (keys, members, latencies); an independent enumeration of winding-number-1 cycles over the reference RAW relation of two iterations is the search (register-only kernels). The line-number collision beyond line 1000 was fixed in /repo.",
+        note="Trusted: Coq kernel; networkx all_simple_paths not modelled (result compared); the declarative statement 'cycle of the infinite stream' is the oracle's, the theorem is about paths of the doubled-kernel graph.",
+        technique="Coq proofs (path enumeration soundness/completeness, de-duplication algebra) + bit-exact correspondence + independent cycle enumeration",
+        ref="DESIGN.md C05"),
+    "C06": dict(
+        text="Proved in Coq against a concrete register-file semantics: whenever the model links a load to an earlier store, both addresses are equal for every register file, given that the tracked changes describe the intervening instructions; one tracked increment/decrement/copy keeps that description valid (this proof attempt exposed a genuine unsoundness for copies of copies, fixed in /repo); shape mismatch, symbolic or different displacement give no link; a later store to the operand ends the search. The model is ISA-independent (prefix+name). Tied to KernelDG bit for bit on generated store/load kernels of both ISAs on shipped models; an independent symbolic tracker decides which loads provably alias.",
+        note="Trusted: Coq kernel; get_reg_changes (exec of the ISA DB's operation strings) is taken from the implementation per line, its results are checked by the oracle only; registers are identified by name (architectural aliasing of address registers is outside the tracking).",
+        technique="Coq soundness proof w.r.t. a concrete address semantics + bit-exact correspondence + independent symbolic alias oracle",
+        ref="DESIGN.md C06"),
+    "C14": dict(
+        text="PARTIAL: the rotation-invariance theorem itself is not proved. What is machine-checked is the characterisation of the reported set (Props/C05.v: de-duplicated image of all cross-iteration dependency paths, each class once) and the bit-exact tie of the LCD model to the code; the property is then decided by an exhaustive metamorphic oracle on the implementation: every rotation offset of generated kernels (register, memory and write-back dependencies) and of shipped kernels on shipped models must report the same cycles (as instruction texts) with the same latencies.",
+        note="The missing theorem (edges of the doubled kernel are a window of the periodic instruction stream, hence invariant under rotation) is stated in DESIGN.md C14; reflexivity of the alias relation (C12) is one of its hypotheses.",
+        technique="Coq characterisation of the LCD set + exhaustive-rotation metamorphic testing on the implementation (partial)",
+        ref="DESIGN.md C14"),
+    "C16": dict(
+        text="The partition arithmetic of check_for_loopcarried_dep is re-translated from the Python source on every run; Coq proves that the chunks cover the kernel exactly once for every kernel length and worker count (incl. more workers than lines), that the post-processing (de-dup, sort, dictionary) is invariant under every permutation of the delivered path list, hence parallel = sequential for any interleaving. Tied to the code by replaying the path lists real worker processes delivered (worker counts 1..length+3, perturbed completion orders through a guarded hook) and by byte-identical repeated CLI runs.",
+        note="Trusted: Coq kernel; translator of the four arithmetic lines (cross-checked by exec of the same lines); OS scheduling, Manager().list() proxies and fork/pickle are sampled, not modelled; '-'.join key injectivity assumed.",
+        technique="Coq proofs (partition cover, permutation invariance) over translated arithmetic + replay of real multi-process runs",
+        ref="DESIGN.md C16, notes/C16.md"),
+    "C19": dict(
+        text="Coq model of the partial-result post-processing and of the poll loop as a state machine over abstract time. Proved: every entry reported from a subset of the paths is an entry of the full result (under the key-injectivity the data satisfy, refuted without it); the loop terminates within the timeout plus one poll; complete result and no flag when untimed or finished in time; flag iff the loop was exhausted; every worker is killed-or-joined. The edge cases where the flag is set without a cut and the untimed sequential branch are refuted in the model and observed on the code (known findings). Real runs: wall-time bound, flag vs SIGKILL, subset of the untimed result, TP/CP unchanged, no child left.",
+        note="Trusted: Coq kernel; wall-clock time, signal delivery and reaping are observed, not proved.",
+        technique="Coq state-machine proofs + trace replay of instrumented real runs",
+        ref="DESIGN.md C19, notes/C19.md"),
+})
+
 REASON_PENDING = "check under construction in this session (see DESIGN.md); not yet claimed"
 
 
